@@ -11,7 +11,8 @@ from props._runner import run
 
 if __name__ == "__main__":
     run("C04", "proof", files=["simulator.py"], targets=["mxlpy.simulator:Simulator.simulate", "mxlpy.simulator:Simulator.simulate_time_course", "mxlpy.simulator:Simulator.update_variables",
-                 "mxlpy.simulator:Simulator.simulate_to_steady_state", "mxlpy.simulator:Simulator.get_result"],
+                 "mxlpy.simulator:Simulator.simulate_to_steady_state", "mxlpy.simulator:Simulator.get_result",
+                 "mxlpy.simulator:Simulator._handle_simulation_results"],
         more_sessions=[(["scipy_integrator.py"], None)],
         notes="C04: refusal rule and absolute end time of Simulator.simulate / simulate_time_course and the clock restart of update_variables proved; frame construction, "
               "steady-state and the trajectories themselves are covered by the bounded stand-in only")
